@@ -109,4 +109,149 @@ def i2cUpdate (m : Mem) : Except PyErr I2CParsed :=
     | .ok _ => .error .valueError
   else .ok { fields := none, address := none, valid := false, called := true }
 
+/-! ## CRC-32 (`binascii.crc32`): reflected polynomial 0xEDB88320, initial value and final xor 0xFFFFFFFF -/
+
+def crcStep (c : Nat) : Nat := if c % 2 = 1 then (c / 2) ^^^ 0xEDB88320 else c / 2
+
+def crcByte (c : Nat) (b : UInt8) : Nat :=
+  crcStep (crcStep (crcStep (crcStep (crcStep (crcStep (crcStep (crcStep (c ^^^ b.toNat))))))))
+
+def crc32 (bs : List UInt8) : Nat := (bs.foldl crcByte 0xFFFFFFFF) ^^^ 0xFFFFFFFF
+
+/-! ## 1-wire deck identity (OWElement) -/
+
+/-- a Python dict in insertion order (keys distinct) -/
+abbrev Dict (α : Type) := List (Nat × α)
+
+/-- `d[k] = v`: replace in place, or append -/
+def dictSet {α} : Dict α → Nat → α → Dict α
+  | [], k, v => [(k, v)]
+  | (k', v') :: d, k, v => if k' = k then (k', v) :: d else (k', v') :: dictSet d k v
+
+/-- the attributes of an `OWElement` that `write_data` uses.  `elements` maps element *ids* to strings given as
+code points: the name <-> id bijection `element_mapping` (Gen.owIds/owNames) is applied by the harness; a name that
+is not in the mapping is carried as id 0 (`_rev_element_mapping[name]` raises KeyError). -/
+structure OWData where
+  pins : Int
+  vid : Int
+  pid : Int
+  elements : Dict (List Nat)
+  deriving Repr, DecidableEq
+
+/-- `str.encode('ISO-8859-1')`: UnicodeEncodeError (a ValueError) for a code point above 255 -/
+def encodeLatin1 (s : List Nat) : Except PyErr (List UInt8) :=
+  if s.all (· < 256) then .ok (s.map UInt8.ofNat) else .error .valueError
+
+/-- the body of the `for element in reversed(list(self.elements.keys()))` loop, over the already reversed list -/
+def owEncodeElems : Dict (List Nat) → Except PyErr (List UInt8)
+  | [] => .ok []
+  | (k, s) :: rest => do
+    if ¬ Gen.C14.owIds.contains k then .error .keyError
+    let kl ← pack (parseFmt! Gen.C14.owWKeyLenFmt) [.int k, .int s.length]
+    let enc ← encodeLatin1 s
+    let r ← owEncodeElems rest
+    pure (kl ++ enc ++ r)
+
+def maskOf (l : List Nat) (i : Nat) : Nat := l.getD i 0
+
+/-- `OWElement.write_data`: the image handed to `mem_handler.write(self, 0, image)` -/
+def owImage (o : OWData) : Except PyErr (List UInt8) := do
+  let hdr ← pack (parseFmt! Gen.C14.owWHdrFmt) [.int Gen.C14.owWMagic, .int o.pins, .int o.vid, .int o.pid]
+  let hcrc ← pack (parseFmt! Gen.C14.owWHdrCrcFmt) [.int (crc32 hdr &&& maskOf Gen.C14.owWCrcMasks 0 : Nat)]
+  let elem ← owEncodeElems o.elements.reverse
+  let area ← pack (parseFmt! Gen.C14.owWAreaFmt) [.int 0, .int elem.length]
+  let acrc ← pack (parseFmt! Gen.C14.owWAreaCrcFmt) [.int (crc32 (area ++ elem) &&& maskOf Gen.C14.owWCrcMasks 1 : Nat)]
+  pure (hdr ++ hcrc ++ (area ++ elem ++ acrc))
+
+/-- what is observable on an `OWElement` after `update()` on a fresh object; element values are the Latin-1 strings
+as bytes -/
+structure OWParsed where
+  pins : Nat
+  vid : Nat
+  pid : Nat
+  elements : Dict (List UInt8)
+  valid : Bool
+  called : Bool
+  deriving Repr, DecidableEq
+
+/-- `_parse_and_check_header(data)`: the fields (always stored) and the verdict -/
+def owHeader (data : List UInt8) : Except PyErr (Nat × Nat × Nat × Bool) :=
+  match unpack (parseFmt! Gen.C14.owRHdrFmt) data with
+  | .error e => .error e
+  | .ok [.int start, .int pins, .int vid, .int pid, .int crc] =>
+    let test := crc32 (data.take (data.length - 1)) &&& maskOf Gen.C14.owRHdrCrcMasks 0
+    .ok (pins.toNat, vid.toNat, pid.toNat, start.toNat = Gen.C14.owMagic && crc.toNat = test)
+  | .ok _ => .error .valueError
+
+/-- the `while len(elem_data) > 0` loop; every iteration removes at least two bytes, `fuel` bounds the iterations -/
+def owTlv : Nat → List UInt8 → Dict (List UInt8) → Except PyErr (Dict (List UInt8))
+  | _, [], d => .ok d
+  | 0, _ :: _, d => .ok d
+  | fuel + 1, data, d =>
+    match unpack (parseFmt! Gen.C14.owRTlvFmt) (data.take 2) with
+    | .error e => .error e
+    | .ok [.int eid, .int elen] =>
+      if Gen.C14.owIds.contains eid.toNat then
+        owTlv fuel (data.drop (2 + elen.toNat)) (dictSet d eid.toNat (slice data 2 (2 + elen.toNat)))
+      else .error .keyError
+    | .ok _ => .error .valueError
+
+/-- `_parse_and_check_elements(data)` on an element dict `d`: `none` = CRC mismatch (returns False) -/
+def owElements (data : List UInt8) (d : Dict (List UInt8)) : Except PyErr (Option (Dict (List UInt8))) :=
+  match data.getLast? with
+  | none => .error .indexError                    -- `data[-1]` of an empty buffer
+  | some crc =>
+    let body := data.take (data.length - 1)         -- data[:-1]
+    let test := crc32 body &&& maskOf Gen.C14.owRElemCrcMasks 0
+    let elemData := body.drop 2                     -- data[2:-1]
+    if test = crc.toNat then
+      match owTlv elemData.length elemData d with
+      | .ok d' => .ok (some d')
+      | .error e => .error e
+    else .ok none
+
+/-- the second stage: `new_data(addr = 8)` -/
+def owStage2 (m : Mem) (pins vid pid elemLen : Nat) : Except PyErr OWParsed :=
+  let d2 := m.read Gen.C14.owRead2Addr (Gen.C14.owRead2Len elemLen)
+  match owElements d2 [] with
+  | .error e => .error e
+  | .ok (some d) => .ok { pins, vid, pid, elements := d, valid := true, called := true }
+  | .ok none => .ok { pins, vid, pid, elements := [], valid := false, called := true }
+
+/-- `OWElement.update` + `new_data` (REPAIRED code, fixes/D12-c14.patch): read `(0, 11)`; the header; the element
+section length; an empty section is checked in place (`data[8:11]`), anything else is fetched with `(8, len + 3)`. -/
+def owUpdate (m : Mem) : Except PyErr OWParsed :=
+  let d0 := m.read (Gen.C14.owRead1.getD 0 0) (Gen.C14.owRead1.getD 1 0)
+  match owHeader (slice d0 0 8) with
+  | .error e => .error e
+  | .ok (pins, vid, pid, false) => .ok { pins, vid, pid, elements := [], valid := false, called := true }
+  | .ok (pins, vid, pid, true) =>
+    match unpack (parseFmt! Gen.C14.owLenFmt) (slice d0 8 10) with
+    | .error e => .error e
+    | .ok [.int _, .int elemLen] =>
+      if elemLen = 0 then
+        match owElements (slice d0 8 11) [] with
+        | .error e => .error e
+        | .ok (some d) => .ok { pins, vid, pid, elements := d, valid := true, called := true }
+        | .ok none => owStage2 m pins vid pid elemLen.toNat
+      else owStage2 m pins vid pid elemLen.toNat
+    | .ok _ => .error .valueError
+
+/-- the code as it is in /repo today (D12): the in-place check is applied to `data[9:11]` (length byte and first
+element id) for every length -/
+def owUpdateLive (m : Mem) : Except PyErr OWParsed :=
+  let d0 := m.read (Gen.C14.owRead1.getD 0 0) (Gen.C14.owRead1.getD 1 0)
+  match owHeader (slice d0 0 8) with
+  | .error e => .error e
+  | .ok (pins, vid, pid, false) => .ok { pins, vid, pid, elements := [], valid := false, called := true }
+  | .ok (pins, vid, pid, true) =>
+    match owElements (slice d0 9 11) [] with
+    | .error e => .error e
+    | .ok (some d) => .ok { pins, vid, pid, elements := d, valid := true, called := true }
+    | .ok none =>
+      match unpack (parseFmt! Gen.C14.owLenFmt) (slice d0 8 10) with
+      | .error e => .error e
+      | .ok [.int _, .int elemLen] => owStage2 m pins vid pid elemLen.toNat
+      | .ok _ => .error .valueError
+
 end CfVerif.C14
